@@ -663,3 +663,79 @@ CONTRACTS += [
              },
              raises={'PySmiLexerError': True}),
 ]
+
+
+# ------------------------------------------------------------------ importPart: groups of one module are merged
+# IMPSEL(imports, k, i): concatenation, over the first i `... FROM module` groups, of the symbol lists of the groups
+# naming module k.  Uninterpreted, with its defining equations added at every mention (universally closed over the
+# bound variables of the mention).
+impsel = z3.Function('impsel', pv.PVSeq, z3.StringSort(), z3.IntSort(), pv.PVSeq)
+
+
+def _bound_vars(t, acc=None, seen=None):
+    acc = {} if acc is None else acc
+    seen = set() if seen is None else seen
+    if t.get_id() in seen:
+        return acc
+    seen.add(t.get_id())
+    if z3.is_const(t) and t.decl().kind() == z3.Z3_OP_UNINTERPRETED and t.decl().name().startswith('q.'):
+        acc[t.decl().name()] = t
+    if z3.is_app(t):
+        for c in t.children():
+            _bound_vars(c, acc, seen)
+    return acc
+
+
+def _IMPSEL(it, args, kwargs):
+    PV = pv.PV
+    seq = it.seq_term(args[0])
+    k = pv.as_term_str(args[1])
+    i = pv.as_term_int(args[2])
+    ctx = it.ctx
+
+    def close(f, *terms):
+        bv = {}
+        for t in terms:
+            _bound_vars(t, bv)
+        return z3.ForAll(list(bv.values()), f) if bv else f
+    ctx.assume(close(impsel(seq, k, z3.IntVal(0)) == pv.EMPTY_SEQ, k))
+    j = pv.ssimp(i - 1)
+    el = PV.titems(seq[j])
+    syms = z3.If(PV.s(el[0]) == k, PV.litems(el[1]), pv.EMPTY_SEQ)
+    ctx.assume(close(z3.Implies(z3.And(j >= 0, j < z3.Length(seq)),
+                                impsel(seq, k, i) == z3.Concat(impsel(seq, k, j), syms)), k, i))
+    return pv.VSeqIter(impsel(seq, k, i))
+
+
+_B3.SPEC_FUNCS['IMPSEL'] = _IMPSEL
+
+
+def _importpart_setup(it, env):
+    imports = pv.VList(seq=it.ctx.fresh(pv.PVSeq, 'imports'))
+    env.set('p', pv.VList([None, imports]))
+    env.set('imports', imports)
+
+
+CONTRACTS += [
+    Contract(id='parser.p_importPart', file=FILE, func='SmiV2Parser.p_importPart', serves=['C02', 'C16', 'C17'],
+             params={'self': Obj('SmiV2Parser'), 'p': NoneT}, setup=_importpart_setup,
+             cases=[('1:imports', {
+                        'requires': ['len(imports) >= 1',
+                                     # value type of `imports` (contract of p_imports / p_import)
+                                     'forall(imports, lambda x: is_tuple(x) and len(x) == 2 and is_str(x[0]) and is_list(x[1]))'],
+                        'loops': {1: {'invariant': [
+                            'is_dict(importDict)',
+                            'forall(importDict, lambda k, v: is_list(v) and same(seq(v), IMPSEL(imports, k, _i)))',
+                            'forall(lambda s_k: implies(s_k not in importDict, len(IMPSEL(imports, s_k, _i)) == 0))',
+                            'forall(imports, lambda j, x: implies(j < _i, x[0] in importDict))']}},
+                        'ensures': {
+                            'every_group_of_a_module_is_kept_in_source_order':
+                                'not raised and is_dict(p[0]) and forall(p[0], lambda k, v: is_list(v) and '
+                                'same(seq(v), IMPSEL(imports, k, len(imports))))',
+                            'every_module_named_is_a_key': 'is_dict(p[0]) and implies(is_dict(p[0]), forall(imports, lambda j, x: x[0] in p[0]))'}}),
+                    ('2:empty', {'setup': lambda it, env: (env.set('p', pv.VList([None, None])), env.set('imports', pv.VList([]))),
+                                 'ensures': {'no_imports_no_value': 'not raised and p[0] is None'}})],
+             notes=['rule=importPart',
+                    'inplace_extension_allowed: the symbol list extended in place belongs to an `import` value that '
+                    'PLY discards with the reduction (the popped right-hand side is not referenced again)']),
+]
